@@ -1,0 +1,10 @@
+//go:build verif
+
+package server
+
+// VerifC08HasSession reports whether the control manager still holds a session for runID.
+// (The entry is removed after the session's proxies have been closed.)
+func (svr *Service) VerifC08HasSession(runID string) bool {
+	_, ok := svr.ctlManager.GetByID(runID)
+	return ok
+}
